@@ -172,19 +172,47 @@ Definition tok_val (t : instant) (k : tok) : Z :=
 Definition digit_tok (k : tok) : bool :=
   match k with TY | Tmo | Td | TH | TMi | TS | Tf | Ts => true | _ => false end.
 
+Lemma enc_ranges_parts ts t : enc_ranges ts t = true ->
+  0 <= i_ns t < 1000000000 /\
+  (has TY ts = true -> 1000 <= c_year (civil_of_unix (i_unix t) (i_off t)) <= 9999) /\
+  (has Ts ts = true -> 1000000000 <= i_unix t < 10000000000) /\
+  (has Tz ts = true -> i_off t mod 60 = 0 /\ Z.abs (i_off t) < 360000).
+Proof.
+  unfold enc_ranges. repeat rewrite andb_true_iff. intros ((((H1 & H2) & H3) & H4) & H5).
+  split; [lia|].
+  split; [intros Hy; rewrite Hy in H3; cbn [negb orb] in H3; lia|].
+  split; [intros Hs; rewrite Hs in H4; cbn [negb orb] in H4; lia|].
+  intros Hz. rewrite Hz in H5. cbn [negb orb] in H5. lia.
+Qed.
+
+Lemma encodable_lz_parts L ts t : encodable_lz L ts t = true ->
+  enc_ranges ts t = true /\
+  (has Tz ts = false -> lz_at L (i_unix t) = i_off t /\
+                        (has Ts ts = false -> lz_date L (i_unix t + i_off t) = i_off t)).
+Proof.
+  unfold encodable_lz. rewrite andb_true_iff. intros [Hr Hz]. split; [exact Hr|].
+  intros Hf. rewrite Hf in Hz. cbn [orb] in Hz. apply andb_true_iff in Hz. destruct Hz as [Ha Hd].
+  split; [lia|]. intros Hs. rewrite Hs in Hd. cbn [orb] in Hd. lia.
+Qed.
+
+(* the ranges alone are `encodable` in the fixed zone of the instant's own offset *)
+Lemma enc_ranges_encodable ts t : enc_ranges ts t = true -> encodable (i_off t) ts t = true.
+Proof.
+  intros H. unfold encodable, encodable_lz. rewrite H. cbn [fixed_lz lz_at lz_date andb].
+  rewrite Z.eqb_refl. cbn [andb]. destruct (has Tz ts); [reflexivity|]. cbn [orb]. apply orb_true_r.
+Qed.
+
 Lemma encodable_parts loff ts t : encodable loff ts t = true ->
   0 <= i_ns t < 1000000000 /\
   (has TY ts = true -> 1000 <= c_year (civil_of_unix (i_unix t) (i_off t)) <= 9999) /\
   (has Ts ts = true -> 1000000000 <= i_unix t < 10000000000) /\
   (has Tz ts = true -> i_off t mod 60 = 0 /\ Z.abs (i_off t) < 360000) /\
-  (has Tz ts = false -> has Ts ts = true \/ i_off t = loff).
+  (has Tz ts = false -> i_off t = loff).
 Proof.
-  unfold encodable. repeat rewrite andb_true_iff. intros ((((H1 & H2) & H3) & H4) & H5).
-  split; [lia|].
-  split; [intros Hy; rewrite Hy in H3; cbn [negb orb] in H3; lia|].
-  split; [intros Hs; rewrite Hs in H4; cbn [negb orb] in H4; lia|].
-  split; [intros Hz; rewrite Hz in H5; lia|].
-  intros Hz. rewrite Hz in H5. destruct (has Ts ts); [left; reflexivity|right; cbn [orb] in H5; lia].
+  intros He. destruct (encodable_lz_parts _ _ _ He) as [Hr Hz].
+  destruct (enc_ranges_parts _ _ Hr) as (H1 & H2 & H3 & H4).
+  split; [exact H1|]. split; [exact H2|]. split; [exact H3|]. split; [exact H4|].
+  intros Hf. destruct (Hz Hf) as [Ha _]. cbn [fixed_lz lz_at] in Ha. now symmetry.
 Qed.
 
 Lemma digit_text loff ts p t k : encodable loff ts t = true -> In k ts -> digit_tok k = true ->
@@ -592,17 +620,36 @@ Proof.
   apply dec_val_pad. exact Hr.
 Qed.
 
-Theorem decode_caps_of loff ts p t :
-  has TPath ts = true -> identifies ts = true -> encodable loff ts t = true ->
-  decode_caps loff (caps_of p t ts) = (p, fst (trunc_start ts t), snd (trunc_start ts t)).
+Lemma date_unix_off y m d H Mi S o : date_unix y m d H Mi S o = date_unix y m d H Mi S 0 - o.
+Proof. unfold date_unix. destruct (norm_month y m). lia. Qed.
+
+Lemma civil_wall u off : let c := civil_of_unix u off in
+  date_unix (c_year c) (c_month c) (c_day c) (c_hour c) (c_min c) (c_sec c) 0 = u + off.
 Proof.
-  intros Hp Hid He. unfold decode_caps, trunc_start. cbn [fst snd]. cbv zeta.
-  rewrite !(num_of_caps loff) by (try assumption; reflexivity).
-  rewrite !cap_of_caps by reflexivity. rewrite Hp. cbn [tok_text tok_val].
-  destruct (encodable_parts _ _ _ He) as (Hns & Hy & Hs & Hz & Hnz).
+  cbv zeta. pose proof (civil_of_unix_date u off) as H. cbv zeta in H.
+  rewrite date_unix_off in H. lia.
+Qed.
+
+(* what time.Date / time.Unix make of the captures of a name Encode wrote, `d` being the offset
+   time.Date applies when the name carries no %z *)
+Theorem decode_caps_of_gen d ts p t :
+  identifies ts = true -> enc_ranges ts t = true ->
+  decode_caps d (caps_of p t ts) =
+  ((if has TPath ts then p else []),
+   (if has Ts ts then i_unix t else i_unix t + i_off t - (if has Tz ts then i_off t else d)),
+   snd (trunc_start ts t)).
+Proof.
+  intros Hid Hr. pose proof (enc_ranges_encodable _ _ Hr) as He.
+  unfold decode_caps, trunc_start. cbn [fst snd]. cbv zeta.
+  rewrite !(num_of_caps (i_off t)) by (try assumption; reflexivity).
+  rewrite !cap_of_caps by reflexivity. cbn [tok_text tok_val].
+  destruct (enc_ranges_parts _ _ Hr) as (Hns & Hy & Hs & Hz).
   assert (Hmic : (if has Tf ts then i_ns t / 1000 else 0) * 1000 = if has Tf ts then i_ns t / 1000 * 1000 else 0)
     by (destruct (has Tf ts); lia).
   rewrite Hmic.
+  assert (Hpath : match (if has TPath ts then Some p else None) with Some p0 => p0 | None => [] end
+                  = if has TPath ts then p else []) by (destruct (has TPath ts); reflexivity).
+  rewrite Hpath.
   destruct (has Ts ts) eqn:Hts.
   - specialize (Hs eq_refl). destruct (Z.ltb_spec 0 (i_unix t)); [reflexivity|lia].
   - change (0 <? -1) with false. cbv iota.
@@ -610,11 +657,31 @@ Proof.
     repeat rewrite andb_true_iff in Hid. destruct Hid as (((((H1 & H2) & H3) & H4) & H5) & H6).
     rewrite H1, H2, H3, H4, H5, H6.
     assert (Hoff : (match (if has Tz ts then Some (zone_text (i_off t)) else None) with
-                    | Some z => zone_off z | None => loff end) = i_off t).
-    { destruct (has Tz ts) eqn:Hhz.
-      - destruct (Hz eq_refl) as [Hm Hb]. apply zone_off_text; assumption.
-      - destruct (Hnz eq_refl) as [Hx|Hx]; [congruence|now symmetry]. }
-    rewrite Hoff. rewrite (civil_of_unix_date (i_unix t) (i_off t)). reflexivity.
+                    | Some z => zone_off z | None => d end) = if has Tz ts then i_off t else d).
+    { destruct (has Tz ts) eqn:Hhz; [|reflexivity].
+      destruct (Hz eq_refl) as [Hm Hb]. apply zone_off_text; assumption. }
+    rewrite Hoff. rewrite date_unix_off. rewrite (civil_wall (i_unix t) (i_off t)). reflexivity.
+Qed.
+
+Theorem decode_caps_of loff ts p t :
+  has TPath ts = true -> identifies ts = true -> encodable loff ts t = true ->
+  decode_caps loff (caps_of p t ts) = (p, fst (trunc_start ts t), snd (trunc_start ts t)).
+Proof.
+  intros Hp Hid He. destruct (encodable_lz_parts _ _ _ He) as [Hr Hz].
+  rewrite (decode_caps_of_gen loff ts p t Hid Hr). rewrite Hp. unfold trunc_start. cbn [fst snd].
+  destruct (has Ts ts); [reflexivity|].
+  destruct (has Tz ts) eqn:Hhz; [f_equal; f_equal; lia|].
+  destruct (Hz eq_refl) as [Ha _]. cbn [fixed_lz lz_at] in Ha. f_equal. f_equal. lia.
+Qed.
+
+(* the wall-clock reading handed to time.Date for such a name *)
+Lemma caps_wall_of ts p t : has_civil ts = true -> enc_ranges ts t = true ->
+  caps_wall (caps_of p t ts) = i_unix t + i_off t.
+Proof.
+  intros Hc Hr. pose proof (enc_ranges_encodable _ _ Hr) as He. unfold caps_wall.
+  rewrite !(num_of_caps (i_off t)) by (try assumption; reflexivity).
+  unfold has_civil in Hc. repeat rewrite andb_true_iff in Hc. destruct Hc as (((((H1 & H2) & H3) & H4) & H5) & H6).
+  rewrite H1, H2, H3, H4, H5, H6. cbn [tok_val]. apply civil_wall.
 Qed.
 
 Lemma wf_toks_parts ts : wf_toks ts = true ->
@@ -844,16 +911,180 @@ Proof.
   intros c Hc. specialize (H c Hc). unfold name_char, is_digit in H. lia.
 Qed.
 
-(* C26, first half *)
+(* ---------------------------------------------------------------- the re-encode comparison *)
+
+Lemma bytes_eqb_refl a : bytes_eqb a a = true.
+Proof. induction a as [|x a IH]; cbn [bytes_eqb]; [reflexivity|]. now rewrite Z.eqb_refl, IH. Qed.
+
+Lemma bytes_eqb_eq a : forall b, bytes_eqb a b = true -> a = b.
+Proof.
+  induction a as [|x a IH]; destruct b as [|y b]; cbn [bytes_eqb]; try discriminate; [reflexivity|].
+  intros H. apply andb_true_iff in H. destruct H as [H1 H2]. apply Z.eqb_eq in H1. subst. f_equal. now apply IH.
+Qed.
+
+Lemma render_ext ts p t t' : (forall k, In k ts -> tok_text p t' k = tok_text p t k) ->
+  render ts p t' = render ts p t.
+Proof.
+  unfold render. induction ts as [|k ts IH]; intros H; [reflexivity|]. cbn [flat_map].
+  rewrite (H k (or_introl eq_refl)), IH; [reflexivity|]. intros k' Hk'. apply H. right. exact Hk'.
+Qed.
+
+(* Encode only looks at the wall-clock reading, the microseconds, the offset (for %z) and the Unix
+   time (for %s) *)
+Lemma tok_text_same ts p t t' :
+  i_unix t' + i_off t' = i_unix t + i_off t ->
+  (has Tf ts = true -> i_ns t' / 1000 = i_ns t / 1000) ->
+  (has Tz ts = true -> i_off t' = i_off t) -> (has Ts ts = true -> i_unix t' = i_unix t) ->
+  forall k, In k ts -> tok_text p t' k = tok_text p t k.
+Proof.
+  intros Hw Hf Hz Hs k Hin. apply has_in in Hin.
+  assert (Hc : civil_of_unix (i_unix t') (i_off t') = civil_of_unix (i_unix t) (i_off t))
+    by (unfold civil_of_unix; rewrite Hw; reflexivity).
+  destruct k; cbn [tok_text]; rewrite ?Hc; try reflexivity.
+  - now rewrite (Hf Hin).
+  - now rewrite (Hz Hin).
+  - now rewrite (Hs Hin).
+Qed.
+
+(* where time.Date / time.Unix put the Start of a name Encode wrote *)
+Definition decoded_unix (L : lzone) (ts : list tok) (t : instant) : Z :=
+  if has Ts ts then i_unix t
+  else i_unix t + i_off t - (if has Tz ts then i_off t else lz_date L (i_unix t + i_off t)).
+
+Lemma decode_lz_unfold L f p t :
+  mtch true (tokenize f) (encode_go f p t) = Some (caps_of p t (tokenize f)) ->
+  (has TPath (tokenize f) = false -> p = []) ->
+  identifies (tokenize f) = true -> enc_ranges (tokenize f) t = true ->
+  decode_lz L f (encode_go f p t) =
+  let r := decoded_unix L (tokenize f) t in
+  let n := snd (trunc_start (tokenize f) t) in
+  let so := if has Tz (tokenize f) then i_off t else lz_at L r in
+  if bytes_eqb (encode_go f p (mkI r n so)) (encode_go f p t) then Some (p, r, n) else None.
+Proof.
+  intros Hm Hnp Hid Hr. set (ts := tokenize f) in *.
+  unfold decode_lz. fold ts. rewrite Hm. unfold decode_caps_lz.
+  rewrite (decode_caps_of_gen _ ts p t Hid Hr).
+  assert (P1 : (if has TPath ts then p else []) = p)
+    by (destruct (has TPath ts) eqn:E; [reflexivity|symmetry; apply Hnp; reflexivity]).
+  assert (Hu : (if has Ts ts then i_unix t
+                else i_unix t + i_off t - (if has Tz ts then i_off t else lz_date L (caps_wall (caps_of p t ts))))
+               = decoded_unix L ts t).
+  { unfold decoded_unix. destruct (has Ts ts) eqn:Hs; [reflexivity|]. destruct (has Tz ts) eqn:Hz; [reflexivity|].
+    rewrite (caps_wall_of ts p t); [reflexivity| |exact Hr].
+    unfold identifies in Hid. rewrite Hs in Hid. exact Hid. }
+  rewrite P1, Hu. cbv zeta.
+  assert (Hso : start_off L (caps_of p t ts) (decoded_unix L ts t)
+                = if has Tz ts then i_off t else lz_at L (decoded_unix L ts t)).
+  { unfold start_off. rewrite cap_of_caps by reflexivity. cbn [tok_text].
+    destruct (has Tz ts) eqn:Hz; [|reflexivity].
+    destruct (enc_ranges_parts _ _ Hr) as (_ & _ & _ & Hzr). destruct (Hzr Hz) as [Hmod Hb].
+    apply zone_off_text; assumption. }
+  rewrite Hso. reflexivity.
+Qed.
+
+Theorem decode_lz_of_match L f p t :
+  forallb (fun k => negb (tok_eqb k (TLit 37))) (tokenize f) = true -> no37 p ->
+  mtch true (tokenize f) (encode_go f p t) = Some (caps_of p t (tokenize f)) ->
+  (has TPath (tokenize f) = false -> p = []) ->
+  identifies (tokenize f) = true -> enc_ranges (tokenize f) t = true ->
+  (has Tz (tokenize f) = false ->
+   decoded_unix L (tokenize f) t + lz_at L (decoded_unix L (tokenize f) t) = i_unix t + i_off t) ->
+  decode_lz L f (encode_go f p t) =
+  Some (p, decoded_unix L (tokenize f) t, snd (trunc_start (tokenize f) t)).
+Proof.
+  intros Hns Hp Hm Hnp Hid Hr Hwall.
+  rewrite (decode_lz_unfold L f p t Hm Hnp Hid Hr). cbv zeta.
+  set (ts := tokenize f) in *. set (r := decoded_unix L ts t) in *.
+  assert (Hre : encode_go f p (mkI r (snd (trunc_start ts t)) (if has Tz ts then i_off t else lz_at L r))
+                = encode_go f p t).
+  { rewrite !encode_go_tokens by assumption. unfold encode. fold ts. apply render_ext.
+    apply tok_text_same; cbn [i_unix i_ns i_off].
+    - destruct (has Tz ts) eqn:Hz; [|apply Hwall; reflexivity].
+      subst r. unfold decoded_unix. rewrite Hz. destruct (has Ts ts); lia.
+    - intros HTf. unfold trunc_start. cbn [snd]. rewrite HTf. apply Z.div_mul. lia.
+    - intros Hz. rewrite Hz. reflexivity.
+    - intros Hs. subst r. unfold decoded_unix. rewrite Hs. reflexivity. }
+  rewrite Hre, bytes_eqb_refl. reflexivity.
+Qed.
+
+(* whatever the zone does, a name Encode wrote can only be recognised with the Start time.Date gives *)
+Theorem decode_lz_of_match_inv L f p t p' u' n' :
+  mtch true (tokenize f) (encode_go f p t) = Some (caps_of p t (tokenize f)) ->
+  (has TPath (tokenize f) = false -> p = []) ->
+  identifies (tokenize f) = true -> enc_ranges (tokenize f) t = true ->
+  decode_lz L f (encode_go f p t) = Some (p', u', n') ->
+  p' = p /\ u' = decoded_unix L (tokenize f) t /\ n' = snd (trunc_start (tokenize f) t).
+Proof.
+  intros Hm Hnp Hid Hr. rewrite (decode_lz_unfold L f p t Hm Hnp Hid Hr). cbv zeta.
+  destruct (bytes_eqb _ _); [|discriminate]. intros H. inversion H. repeat split.
+Qed.
+
+Lemma wf_match f p t : wf_format f = true -> name_ok p = true -> enc_ranges (tokenize f) t = true ->
+  forallb (fun k => negb (tok_eqb k (TLit 37))) (tokenize f) = true /\ no37 p /\
+  mtch true (tokenize f) (encode_go f p t) = Some (caps_of p t (tokenize f)) /\
+  has TPath (tokenize f) = true.
+Proof.
+  intros Hwf Hp Hr. unfold wf_format in Hwf. destruct (wf_toks_parts _ Hwf) as (Hns & Hc & Hz).
+  split; [exact Hns|]. split; [exact (name_ok_no37 p Hp)|]. split.
+  - rewrite encode_go_tokens; [|exact Hns|exact (name_ok_no37 p Hp)]. unfold encode.
+    exact (mtch_render (i_off t) _ p t Hc Hz (proj1 (name_ok_parts p Hp)) (enc_ranges_encodable _ _ Hr)).
+  - apply count_pos_has. lia.
+Qed.
+
+(* C26, first half, general local zone: the name Encode writes is recognised, with the Start whose
+   wall-clock reading is the one written, provided time.Date returns an instant that has that reading
+   (always the case for a reading that exists, see Proofs/C26_Zone.v) *)
+Theorem roundtrip_wall L f p t :
+  wf_format f = true -> name_ok p = true -> identifies (tokenize f) = true -> enc_ranges (tokenize f) t = true ->
+  (has Tz (tokenize f) = false ->
+   decoded_unix L (tokenize f) t + lz_at L (decoded_unix L (tokenize f) t) = i_unix t + i_off t) ->
+  decode_lz L f (encode_go f p t) =
+  Some (p, decoded_unix L (tokenize f) t, snd (trunc_start (tokenize f) t)).
+Proof.
+  intros Hwf Hp Hid Hr Hwall. destruct (wf_match f p t Hwf Hp Hr) as (Hns & Hp37 & Hm & HTP).
+  apply decode_lz_of_match; try assumption. intros E. congruence.
+Qed.
+
+Lemma decoded_unix_encodable L ts t : encodable_lz L ts t = true -> decoded_unix L ts t = i_unix t.
+Proof.
+  intros He. destruct (encodable_lz_parts _ _ _ He) as [_ Hz]. unfold decoded_unix.
+  destruct (has Ts ts) eqn:Hs; [reflexivity|]. destruct (has Tz ts) eqn:Hhz; [lia|].
+  destruct (Hz eq_refl) as [_ Hd]. rewrite (Hd eq_refl). lia.
+Qed.
+
+Theorem roundtrip_lz L f p t :
+  wf_format f = true -> name_ok p = true -> identifies (tokenize f) = true -> encodable_lz L (tokenize f) t = true ->
+  decode_lz L f (encode_go f p t) =
+  Some (p, fst (trunc_start (tokenize f) t), snd (trunc_start (tokenize f) t)).
+Proof.
+  intros Hwf Hp Hid He. destruct (encodable_lz_parts _ _ _ He) as [Hr Hz].
+  rewrite (roundtrip_wall L f p t Hwf Hp Hid Hr).
+  - rewrite (decoded_unix_encodable _ _ _ He). reflexivity.
+  - intros Hhz. rewrite (decoded_unix_encodable _ _ _ He). destruct (Hz Hhz) as [Ha _]. lia.
+Qed.
+
+(* exactly when: without %z and %s, an instant held in the local zone comes back iff time.Date maps
+   its wall-clock reading to the offset in force at that instant *)
+Theorem roundtrip_lz_iff L f p t :
+  wf_format f = true -> name_ok p = true -> identifies (tokenize f) = true -> enc_ranges (tokenize f) t = true ->
+  has Tz (tokenize f) = false -> has Ts (tokenize f) = false -> lz_at L (i_unix t) = i_off t ->
+  (decode_lz L f (encode_go f p t) = Some (p, i_unix t, snd (trunc_start (tokenize f) t))
+   <-> lz_date L (i_unix t + i_off t) = i_off t).
+Proof.
+  intros Hwf Hp Hid Hr Hz Hs Ha. split.
+  - intros H. destruct (wf_match f p t Hwf Hp Hr) as (_ & _ & Hm & HTP).
+    destruct (decode_lz_of_match_inv L f p t _ _ _ Hm ltac:(congruence) Hid Hr H) as (_ & Hu & _).
+    unfold decoded_unix in Hu. rewrite Hs, Hz in Hu. lia.
+  - intros Hd. rewrite (roundtrip_lz L f p t Hwf Hp Hid); [reflexivity|].
+    unfold encodable_lz. rewrite Hr, Hz, Hs. cbn [andb orb]. lia.
+Qed.
+
+(* C26, first half, fixed-offset local zone *)
 Theorem roundtrip loff f p t :
   wf_format f = true -> name_ok p = true -> identifies (tokenize f) = true -> encodable loff (tokenize f) t = true ->
   decode loff f (encode_go f p t) =
   Some (p, fst (trunc_start (tokenize f) t), snd (trunc_start (tokenize f) t)).
-Proof.
-  intros Hwf Hp Hid He. unfold wf_format in Hwf.
-  rewrite encode_go_tokens; [|exact (proj1 (wf_toks_parts _ Hwf))|exact (name_ok_no37 p Hp)].
-  unfold decode, encode. apply roundtrip_toks; assumption.
-Qed.
+Proof. intros. unfold decode. apply roundtrip_lz; assumption. Qed.
 
 (* ---------------------------------------------------------------- a match covers the whole name *)
 
@@ -909,14 +1140,44 @@ Proof.
         unfold nonlit in *. cbn [filter]. rewrite Hl. cbn [negb]. now rewrite Hf.
 Qed.
 
-(* C26, second half (shape strength) *)
+Lemma decode_lz_inv L f v r : decode_lz L f v = Some r ->
+  exists caps, mtch true (tokenize f) v = Some caps /\ r = decode_caps_lz L caps /\
+               v = encode_go f (fst (fst r)) (mkI (snd (fst r)) (snd r) (start_off L caps (snd (fst r)))).
+Proof.
+  unfold decode_lz. destruct (mtch true (tokenize f) v) as [caps|] eqn:Hm; [|discriminate].
+  destruct (decode_caps_lz L caps) as [[p u] n] eqn:Hd.
+  destruct (bytes_eqb _ v) eqn:Hb; [|discriminate]. intros H. inversion H; subst r. clear H.
+  exists caps. cbn [fst snd]. split; [reflexivity|]. split; [now symmetry|].
+  symmetry. apply bytes_eqb_eq. exact Hb.
+Qed.
+
+(* the current Decode recognises only what the one without the final comparison recognised *)
+Theorem decode_lax_of_decode L f v r : decode_lz L f v = Some r -> decode_lax_lz L f v = Some r.
+Proof.
+  intros H. destruct (decode_lz_inv _ _ _ _ H) as (caps & Hm & -> & _). unfold decode_lax_lz. now rewrite Hm.
+Qed.
+
+(* C26, second half, shape form (kept for C06 / C30): literals of the format with well-shaped fields *)
+Theorem whole_name_lz L f v r : decode_lz L f v = Some r ->
+  exists caps, v = fill (tokenize f) caps /\ forallb cap_shape caps = true
+               /\ map fst caps = nonlit (tokenize f) /\ r = decode_caps_lz L caps.
+Proof.
+  intros H. destruct (decode_lz_inv _ _ _ _ H) as (caps & Hm & Hr & _).
+  destruct (mtch_sound _ _ _ Hm) as (Hv & Hs & Hf). exists caps. repeat split; assumption.
+Qed.
+
 Theorem whole_name loff f v r : decode loff f v = Some r ->
   exists caps, v = fill (tokenize f) caps /\ forallb cap_shape caps = true
                /\ map fst caps = nonlit (tokenize f) /\ r = decode_caps loff caps.
+Proof. unfold decode. intros H. exact (whole_name_lz _ _ _ _ H). Qed.
+
+(* C26, second half, full strength: a recognised name is the name Encode writes for the decoded path
+   and start (every local zone, every format) *)
+Theorem whole_name_full L f v p u n : decode_lz L f v = Some (p, u, n) ->
+  exists off, v = encode_go f p (mkI u n off).
 Proof.
-  unfold decode, decode_toks. destruct (mtch true (tokenize f) v) as [caps|] eqn:Hm; [|discriminate].
-  intros H; inversion H; subst. destruct (mtch_sound _ _ _ Hm) as (Hv & Hs & Hf).
-  exists caps. repeat split; assumption.
+  intros H. destruct (decode_lz_inv _ _ _ _ H) as (caps & _ & _ & Hv). cbn [fst snd] in Hv.
+  eexists. exact Hv.
 Qed.
 
 (* ---------------------------------------------------------------- refutations *)
@@ -937,14 +1198,16 @@ Proof.
   apply app_inj_tail in H. destruct H as [_ H]. discriminate.
 Qed.
 
-(* the anchored code still recognises names whose fields Encode never writes (month 13) *)
+(* the anchored code before the re-encode comparison recognised names whose fields Encode never
+   writes (month 13); the current code does not *)
 Definition f_month : list Z := [37;109; 95; 37;112;97;116;104].  (* %m_%path *)
 Definition v_month : list Z := [49;51; 95; 97].                  (* 13_a *)
 
 Theorem strict_whole_name_refuted :
-  (exists r, decode 0 f_month v_month = Some r) /\ forall p t, v_month <> encode f_month p t.
+  (exists r, decode_lax 0 f_month v_month = Some r) /\ (forall p t, v_month <> encode f_month p t) /\
+  decode 0 f_month v_month = None.
 Proof.
-  split; [eexists; vm_compute; reflexivity|].
+  split; [eexists; vm_compute; reflexivity|]. split; [|vm_compute; reflexivity].
   intros p t H. unfold encode in H.
   assert (Htk : tokenize f_month = [Tmo; TLit 95; TPath]) by (vm_compute; reflexivity).
   rewrite Htk in H. unfold render in H. cbn [flat_map tok_text] in H.
@@ -965,5 +1228,6 @@ Definition f_two : list Z := [37;112;97;116;104; 47; 37;112;97;116;104; 95; 37;1
 Theorem two_paths_refuted :
   let p := [97; 47; 98] in let t := mkI 1700000000 0 0 in
   valid_name p = true /\ identifies (tokenize f_two) = true /\ encodable 0 (tokenize f_two) t = true /\
-  decode 0 f_two (encode_go f_two p t) = Some ([98; 47; 97; 47; 98], 1700000000, 0).
+  decode_lax 0 f_two (encode_go f_two p t) = Some ([98; 47; 97; 47; 98], 1700000000, 0) /\
+  decode 0 f_two (encode_go f_two p t) = None.
 Proof. vm_compute. repeat split. Qed.
